@@ -1,9 +1,10 @@
 (** * C07 — Start delay is a lower bound and replace debounces to the newest job
     (partial for real time: the logical clock advances by Tick events; that a timer is armed with the job's own delay
-    and that Go timers do not fire early is exercised by the check's timed mode, not proved) *)
+    and that Go timers do not fire early is exercised by the check's timed mode, not proved; "starts as soon as a slot is
+    free" is C07_starts_as_soon_as_slot_free, "converges to the newest" C07_burst_converges + C07_newest_survives) *)
 From stdpp Require Import list.
 From Coq Require Import ZArith.
-From PV Require Import Runner proofs.SystemProps.
+From PV Require Import System Runner proofs.SystemProps proofs.WorkProps.
 Local Open Scope Z_scope.
 
 (** a job never starts earlier than its start delay after it was accepted *)
@@ -46,6 +47,24 @@ Example C07_ex_burst :
   (fun j => (j_canceled j, j_start j)) <$> st_jobs s = [(true, None); (true, None); (false, Some 5)].
 Proof. vm_compute. done. Qed.
 
+(** once the delay has passed the job starts as soon as a slot is free: under an unchanged definition no reachable state has a
+    free slot while the head of the wait list has no pending start timer (the start happens in the step that frees the slot
+    or fires the timer) *)
+Theorem C07_starts_as_soon_as_slot_free : ∀ ds evs p h rest j,
+  Forall no_reload evs → let s := exec (init ds) evs in
+  st_shut s = false → wl_get (st_wait s) p = h :: rest → get_job s h = Some j → j_timer j = false →
+  (pd_conc (def_or_zero ds p) ≤ running_count s p)%nat.
+Proof. exact sys_work_conserving. Qed.
+
+(** a burst converges: under the replace strategy (unchanged definition) at most one job waits — by C07_newest_survives the newest *)
+Theorem C07_burst_converges : ∀ ds evs p d,
+  Forall no_reload evs → lookup_def ds p = Some d →
+  (∀ n, pd_qlimit d = Some n → (length (wl_get (st_wait (exec (init ds) evs)) p) <= n)%nat)
+  ∧ (pd_replace d = true → (length (wl_get (st_wait (exec (init ds) evs)) p) <= 1)%nat).
+Proof. exact sys_waiting_bounded. Qed.
+
+Print Assumptions C07_starts_as_soon_as_slot_free.
+Print Assumptions C07_burst_converges.
 Print Assumptions C07_delay_lower_bound.
 Print Assumptions C07_replaced_never_runs.
 Print Assumptions C07_newest_survives.
